@@ -1,6 +1,15 @@
 # per-property claim texts used by mk_manifest.py
 NA = {}
 CLAIMS = {
+ 'C10': {
+  'technique': 'Coq simulation proof on generated optimizer + sampler code (array_split partition, split run refines unsplit run); engine-level differential runs',
+  'text': ('array_split_partition and physical_batches_bounded (every physical batch non-empty, <= max, concatenation = logical batch) for all batch sizes and max sizes; '
+           'the sampler body generated from BatchSplittingSampler.__iter__ emits skip=True before all but the last physical batch (and one empty batch with skip=False for '
+           'an empty logical batch); bmm_refines_unsplit: for every split, every hyper-parameter value, every accountant and the flat / per-layer / adaptive-loop optimizers, '
+           'the split run and the unsplit run have the same noise draws, accountant records, released (sample, clipping norm) lists, history and noise-stream position. '
+           'PARTIAL: the ghost optimizer and prefetch interleavings are covered by the correspondence / differential runs only (real engine with vs without the manager: '
+           'parameter trajectories, torch.normal log, history).'),
+ },
  'C11': {
   'technique': 'Coq invariant proof by induction over operation sequences on optimizer transitions regenerated from the sources; exhaustive one-hot op-sequence correspondence',
   'text': ('no_double_release is a theorem for EVERY finite program over {forward+backward, step, optimizer/module zero_grad, skip signals, scheduler writes}, '
